@@ -4,7 +4,7 @@
     hypothesis/conclusion speaks about [Ok] results).  The model is tied to the code by the
     correspondence check (Check/C01Check.v, harness/props/c01*.go). *)
 From Coq Require Import List Bool ZArith Arith Strings.Byte.
-From YV Require Import Schemac.Ast Schemac.Expand Schemac.Refactor Schemac.Proofs.
+From YV Require Import Schemac.Ast Schemac.Expand Schemac.Refactor Schemac.Proofs Schemac.Scoping.
 Import ListNotations.
 
 (** ** uses_inline: a uses may be replaced by its expansion written out as plain statements
@@ -68,6 +68,33 @@ Theorem augment_appends : forall path nodes t t' k n p ks kids,
   node_at path t' = Some (ENode k n p ks (kids ++ graft_nodes k nodes)).
 Proof. exact augment_appends_proof. Qed.
 Print Assumptions augment_appends.
+
+(** ** scoped_uses_innermost: grouping names are lexically scoped. A [uses g] written directly in
+    a scope [fr] that defines [g] expands to THAT definition's body, in that definition's lexical
+    context — for all enclosing scopes [outer] (the module's top level included) and every module
+    environment [me]: what other scopes of the module define under the same name is irrelevant.
+    The check generates such module sets (one name, different groupings in disjoint scopes of one
+    file) and also tests the renaming law on the implementation (rename-groupings-apart). *)
+Theorem scoped_uses_innermost : forall f fr outer me g gg body acc,
+  find_in_frame g fr = Some (gg, body) ->
+  expand (S f) (mkCtx (fr :: outer) me) acc [SUses None g None [] []] =
+  expand f (mkCtx (gg :: fr :: outer) me) acc body.
+Proof. exact scoped_uses_innermost_proof. Qed.
+Print Assumptions scoped_uses_innermost.
+
+Theorem scoped_uses_own_prefix : forall f fr outer own top imps g gg body acc,
+  find_in_frame g fr = Some (gg, body) ->
+  expand (S f) (mkCtx (fr :: outer) (ME own top imps)) acc [SUses (Some own) g None [] []] =
+  expand (S f) (mkCtx (fr :: outer) (ME own top imps)) acc [SUses None g None [] []].
+Proof. exact scoped_uses_own_prefix_proof. Qed.
+Print Assumptions scoped_uses_own_prefix.
+
+(** module m { container a { grouping s { leaf x; } uses s; } container b { grouping s { leaf y; }
+    uses s; } } compiles to a { x } b { y }, the same as with the second grouping renamed to t *)
+Example same_name_sibling_scopes :
+  compile_modset default_fuel (sc_ms [x73] [x73]) = Ok sc_tree /\
+  compile_modset default_fuel (sc_ms [x73] [x74]) = Ok sc_tree.
+Proof. exact same_name_sibling_scopes_proof. Qed.
 
 (** ** hypotheses are satisfiable: module m { grouping g { leaf a; container b { leaf c; } }
        container x { uses g { refine b/c { config false; } } leaf z; } } *)
